@@ -321,6 +321,12 @@ func iCut(d time.Duration) {
 
 // iWait: wg.Wait - every live worker runs to completion.
 func iWait(wg interface{}) {
+	// the scheduling thread may block only once the loop is over, i.e. when no stage is
+	// waiting or running any more (neither state can reappear); blocking inside the loop
+	// would make eligible stages wait for unrelated ones to finish
+	for _, x := range iSt {
+		rt.Assert(rt.And(x.st.Status != StatusWaiting, x.st.Status != StatusRunning), "C04.scheduling-thread-blocks-only-after-the-loop-is-over")
+	}
 	iRely()
 	for _, x := range iSt {
 		rt.Assume(rt.Not(x.alive))
